@@ -24,7 +24,43 @@ def sh(cmd, cwd=None, env=None, timeout=3600):
     return r.returncode, r.stdout
 
 
+def run_checks(patch):
+    ev = tempfile.mkdtemp(prefix="seedev-")
+    try:
+        rc, out = sh("git -C /repo apply %s" % patch)
+        assert rc == 0, out
+        rc, out = sh("./vf all --tier quick", cwd=VERIF, env={"VERIF_EVIDENCE_DIR": ev})
+    finally:
+        sh("git -C /repo checkout -- .")
+        shutil.rmtree(ev, ignore_errors=True)
+    fired = []
+    cur = None
+    for l in out.splitlines():
+        m = re.match(r"VIOLATION property=(C\d+)", l)
+        if m:
+            cur = m.group(1)
+        m2 = re.match(r"\s+rule=(\S+) key=(.*)", l)
+        if m2 and cur:
+            fired.append("%s %s %s" % (cur, m2.group(1), m2.group(2)))
+    return fired
+
+
+def recheck(sid):
+    d = os.path.join(VERIF, "seeded", sid)
+    meta = json.load(open(os.path.join(d, "meta.json")))
+    fired = run_checks(os.path.join(d, "patch.diff"))
+    meta["checks_fired"] = fired
+    meta["caught"] = bool(fired)
+    meta["caught_by_own_property"] = any(f.startswith(meta["property"] + " ") for f in fired)
+    meta["ran"] = [r for r in meta["ran"] if not r.startswith("git -C /repo apply")] + ["git -C /repo apply <patch>; ./vf all --tier quick; git -C /repo checkout -- .  -> %d violation(s) (re-run after the checks were strengthened)" % len(fired)]
+    json.dump(meta, open(os.path.join(d, "meta.json"), "w"), indent=1)
+    print(sid, "caught" if fired else "MISSED", "own:", meta["caught_by_own_property"], [f for f in fired if f.startswith(meta["property"] + " ")][:3])
+    return 0
+
+
 def main():
+    if sys.argv[1] == "--recheck":
+        return recheck(sys.argv[2])
     sid, patch, demo, prop, needs = sys.argv[1:6]
     patch = os.path.abspath(patch)
     demo = os.path.abspath(demo)
